@@ -92,6 +92,7 @@ func clExternalLengths(c *Ctx) {
 			if cellOf(x) != cell {
 				continue
 			}
+			_ = idx
 			// indexing by a range over the slice itself is safe
 			if rangesOver(idx, cell) {
 				continue
@@ -134,6 +135,65 @@ func clExternalLengths(c *Ctx) {
 				}
 				okEdge := bad != nil && fi.PathFromBlock(bad, func(i ssa.Instruction) bool { return i == in }, nil) == nil
 				c.Check(okEdge, fn, test, cnt.in(fn, "length mismatch of "+cell.Comment+" rejects the backup"), "the length test does not stop a mismatching manifest from being indexed")
+			}
+		}
+	}
+	// the slice handed to a shared helper that indexes its parameter in step with another slice
+	for cell, calls := range targets {
+		if _, isSlice := cell.Type().Underlying().(*types.Pointer).Elem().Underlying().(*types.Slice); !isSlice {
+			continue
+		}
+		for _, in := range fi.Instrs {
+			cc := callOf(in)
+			if cc == nil || cc.StaticCallee() == nil || cc.IsInvoke() || p.helperCall(in) != nil {
+				continue
+			}
+			h := cc.StaticCallee()
+			if h.Blocks == nil || h.Package() == nil || h.Package().Pkg.Path() != modPath || len(h.Params) != len(cc.Args) {
+				continue
+			}
+			for i, a := range cc.Args {
+				if cellOf(a) != cell {
+					continue
+				}
+				// does the helper index that parameter by something else than a range over it?
+				indexes := false
+				for _, hin := range p.Info(h).Instrs {
+					switch ia := hin.(type) {
+					case *ssa.IndexAddr:
+						if ia.X == ssa.Value(h.Params[i]) {
+							indexes = true
+						}
+					case *ssa.Index:
+						if ia.X == ssa.Value(h.Params[i]) {
+							indexes = true
+						}
+					}
+				}
+				if !indexes {
+					continue
+				}
+				found++
+				for _, um := range calls {
+					if !fi.Reaches(um, in) {
+						continue
+					}
+					var test *ssa.If
+					leak := fi.PathAvoiding(um, func(x ssa.Instruction) bool { return x == in }, func(x ssa.Instruction) bool {
+						ifi, ok := x.(*ssa.If)
+						if !ok {
+							return false
+						}
+						cmp, ok := cmpOf(ifi.Cond, true)
+						if ok && (isLenOf(cmp.X, cell) || isLenOf(cmp.Y, cell)) {
+							test = ifi
+							return true
+						}
+						return false
+					})
+					c.Check(leak == nil && test != nil, fn, in, cnt.in(fn, "manifest slice "+cell.Comment+" is length-checked before a helper indexes it"),
+						"a slice whose length is dictated by a (possibly damaged) manifest file is handed to a helper that indexes it in step with another slice, without a length test")
+				}
 			}
 		}
 	}
@@ -284,11 +344,35 @@ func clVerificationPrecedesAcceptance(c *Ctx) {
 	}
 	var sites []vsite
 	cnt := counter{}
+	// verification performed by a shared helper (e.g. verifyReaderChecksums(manifest, readers)): the
+	// helper's own loop is evaluated, and each of its call sites in LoadFromDisk counts as a verification site
+	type vjob struct {
+		fn   *ssa.Function
+		in   ssa.Instruction
+		site ssa.Instruction // where it happens in LoadFromDisk (== in for inline code)
+	}
+	var jobs []vjob
 	for _, in := range fi.Instrs {
 		cc := callOf(in)
-		if cc == nil || !cc.IsInvoke() || cc.Method.Name() != "Checksum" {
+		if cc == nil {
 			continue
 		}
+		if cc.IsInvoke() && cc.Method.Name() == "Checksum" {
+			jobs = append(jobs, vjob{fn, in, in})
+			continue
+		}
+		if h := cc.StaticCallee(); h != nil && !cc.IsInvoke() && h.Blocks != nil && h.Package() != nil && h.Package().Pkg.Path() == modPath && h != fn && p.helperCall(in) == nil && h.Parent() == nil {
+			for _, hin := range p.Info(h).Instrs {
+				if hc := callOf(hin); hc != nil && hc.IsInvoke() && hc.Method.Name() == "Checksum" {
+					jobs = append(jobs, vjob{h, hin, in})
+				}
+			}
+		}
+	}
+	for _, job := range jobs {
+		in := job.in
+		fn := job.fn
+		fi := p.Info(fn)
 		call := in.(*ssa.Call)
 		head := loopHeaderOf(in.Block())
 		construct := cnt.in(fn, "shard checksum verified against its manifest entry")
@@ -320,6 +404,15 @@ func clVerificationPrecedesAcceptance(c *Ctx) {
 						return ival{kind: 'i', i: stored}, true
 					}
 				}
+				// inside a shared helper the manifest arrives as a []uint32 parameter
+				if prm, isP := ia.X.(*ssa.Parameter); isP && job.fn != job.site.Parent() {
+					if sl, ok := prm.Type().Underlying().(*types.Slice); ok {
+						if b, ok := sl.Elem().Underlying().(*types.Basic); ok && b.Kind() == types.Uint32 {
+							usedStored = true
+							return ival{kind: 'i', i: stored}, true
+						}
+					}
+				}
 			}
 			if len(chain) == 0 {
 				if _, isG := root.(*ssa.Global); isG {
@@ -345,6 +438,13 @@ func clVerificationPrecedesAcceptance(c *Ctx) {
 				return "", false
 			}
 			if _, isD := x.(*ssa.RunDefers); isD {
+				return "reject", true
+			}
+			if r, isR := x.(*ssa.Return); isR && job.fn != job.site.Parent() {
+				// in a helper: returning a non-nil error rejects, returning nil accepts
+				if len(r.Results) == 1 && isNilConst(r.Results[0]) {
+					return "accept", true
+				}
 				return "reject", true
 			}
 			return "", false
@@ -379,8 +479,18 @@ func clVerificationPrecedesAcceptance(c *Ctx) {
 			det = fmt.Sprintf("%d of %d points differ from reject <=> manifest != 0 && manifest != recomputed; first: %s: a damaged shard whose checksum differs is accepted (or an intact one refused)", len(bad), pts, bad[0])
 		}
 		c.Check(len(bad) == 0 && usedStored, fn, in, construct, det+map[bool]string{true: "", false: " the checksum is not compared with the value recorded in the manifest"}[usedStored])
-		sites = append(sites, vsite{in, head, "checksum verification"})
+		if job.site == job.in {
+			sites = append(sites, vsite{in, head, "checksum verification"})
+		} else {
+			// the helper's verdict must reach LoadFromDisk's result
+			lfi := p.Info(job.site.Parent())
+			ev, _ := errResult(job.site)
+			c.Check(ev != nil && len(p.errSinks(ev)) > 0, job.site.Parent(), job.site, cnt.in(job.site.Parent(), "verdict of the checksum verification helper is returned"), "the result of the verification helper is dropped")
+			_ = lfi
+			sites = append(sites, vsite{job.site, job.site.Block(), "checksum verification"})
+		}
 	}
+	fi = p.Info(fn)
 	// error scans: element of a local []error compared with nil and returned
 	for _, in := range fi.Instrs {
 		ret, ok := in.(*ssa.Return)
